@@ -155,6 +155,8 @@ class Hist:
         if r.random() < 0.3:
             src = r.randint(1, 8)
             a, b = rr(r)
+            if r.random() < 0.35:
+                a, b = max(1, src - r.randint(0, 2)), src + r.randint(1, 2)      # the target range holds the source number and goes on beyond it
             for k in KINDS:
                 if (k, src) in self.m:
                     for n in range(a, b + 1):
@@ -165,6 +167,8 @@ class Hist:
         hv = self.have(kind)
         src = r.choice(hv) if hv and r.random() < 0.85 else r.randint(1, 9)
         a, b = rr(r)
+        if r.random() < 0.35:
+            a, b = max(1, src - r.randint(0, 2)), src + r.randint(1, 2)
         present = (kind, src) in self.m
         if present:
             for n in range(a, b + 1):
@@ -492,7 +496,7 @@ def elements_of(kind, lines):
 NUM = re.compile(r"^[-+]?(\d+\.?\d*|\.\d+)([eE][-+]?\d+)?$")
 
 
-def lines_close(la, lb, rel=1e-8, ab=1e-14):
+def lines_close(la, lb, rel=1e-8, ab=1e-12):      # 1e-12 mol: differences of step sums of 1e-3 mol leave residues of a few 1e-14 (thorough seed 8: N(5) 2.5e-14 vs 5.0e-14)
     if len(la) != len(lb):
         return "line counts %d vs %d" % (len(la), len(lb))
     for x, y in zip(la, lb):
@@ -508,6 +512,8 @@ def lines_close(la, lb, rel=1e-8, ab=1e-14):
                 fa, fb = float(a), float(b)
                 if abs(fa - fb) <= rel * max(abs(fa), abs(fb)) + ab:
                     continue
+                if wx[0] == "-cb" and abs(fa - fb) <= 1e-11:
+                    continue      # the charge balance of a neutral water is the round-off of sums of 1e-3 eq: 1e-14 vs 5e-14 (thorough seed 8) is no difference
             return "%r vs %r" % (x, y)
     return None
 
